@@ -111,7 +111,7 @@ CHECKS = {
         design="4/C09",
     ),
     "C10": dict(
-        text="Breadth-first exploration of DSL operation sequences from a 32-atom alphabet (thorough: also three operations deep "
+        text="Breadth-first exploration of DSL operation sequences from a 35-atom alphabet (two populations) (thorough: also three operations deep "
         "from a 12-atom alphabet): for every well-scoped expression reached and every ordering, the value function of the "
         "canonical form (exact rationals over generic tables, every value assignment) is compared with that of the expression; "
         "all states are grouped by canonical form across shards and every group must have one value function.",
